@@ -28,6 +28,7 @@ type seqCfg struct {
 	Extra    []string // names that exist on the service but get no events
 	Initial  string   // initial cache document ("" = none)
 	Events   []string // if set, the event alphabet (default: all events for Names)
+	Poller   bool     // the store runs its polling task (on a ticker that never fires), so Close goes through the task's shutdown
 	AutoRead bool     // after every event, take a handle for every declared name and read it
 	NoDedup  bool     // explore the full history tree: two histories are never merged, so state the
 	// dump cannot see (hidden state a change may introduce) cannot hide behind an equal dump
@@ -91,10 +92,15 @@ func parseCache(b []byte) (cacheDoc, error) {
 func (w *world) now() int64 { return w.clock.Unix() }
 
 func (w *world) newStore() error {
-	st, err := setec.NewStore(context.Background(), setec.StoreConfig{
+	sc := setec.StoreConfig{
 		Client: w.svc, Secrets: append([]string(nil), w.cfg.Declared...), AllowLookup: true, Cache: w.cache,
 		PollInterval: -1, ExpiryAge: w.cfg.Expiry, Logf: func(string, ...any) {}, TimeNow: func() time.Time { return w.clock },
-	})
+	}
+	if w.cfg.Poller {
+		sc.PollInterval = 0
+		sc.PollTicker = &hTicker{ch: make(chan time.Time)}
+	}
+	st, err := setec.NewStore(context.Background(), sc)
 	if err != nil {
 		return err
 	}
@@ -403,6 +409,25 @@ func (w *world) step1(ev string) {
 		}
 	case "restart":
 		w.st.Close()
+		// handles outlive the store: after Close each still yields its last value, without a panic
+		var hn []string
+		for n := range w.handles {
+			hn = append(hn, n)
+		}
+		sort.Strings(hn)
+		for _, n := range hn {
+			var got string
+			var pan any
+			func() {
+				defer func() { pan = recover() }()
+				got = string(w.handles[n].Get())
+			}()
+			if pan != nil {
+				w.fail("C12", "handle-after-close-panics", "the handle for %q panicked when called after Close: %v", n, pan)
+			} else if e := w.m[n]; e != nil && got != e.Value {
+				w.fail("C12", "handle-after-close-value", "after Close the handle for %q returned %q; the store's last value was %q", n, got, e.Value)
+			}
+		}
 		// the model restarts from what the cache document holds
 		doc, err := parseCache(w.cache.Data)
 		if err != nil {
@@ -424,6 +449,10 @@ func (w *world) step1(ev string) {
 				w.fail("C13", "restart-loses", "restart: %q (v%d) was known to the store but is not in its cache", n, e.Version)
 			} else if c.Version != e.Version || c.Value != e.Value {
 				w.fail("C13", "restart-stale", "restart: cache has %q v%d, the store had v%d", n, c.Version, e.Version)
+			} else if w.cfg.Poller && c.LastAccess != e.LastAccess {
+				// the polling task rewrites the cache when it shuts down, so reads since the last install are not forgotten
+				w.fail("C19", "stamp-not-persisted-at-shutdown", "restart: the cache written at shutdown holds last-access %d for %q; the store had %d", c.LastAccess, n, e.LastAccess)
+				w.fail("C13", "stamp-not-persisted-at-shutdown", "restart: the cache written at shutdown holds last-access %d for %q; the store had %d", c.LastAccess, n, e.LastAccess)
 			}
 		}
 		w.m = nm
